@@ -87,11 +87,19 @@ class Ctx:
             from .drivers import common as _c
             res = _c.run_isolated(isolated[0], isolated[1], programs, timeout=isolated[2] if len(isolated) > 2 else 90)
             lost = [i for i, r in enumerate(res) if r is None]
-            self.extra["inconclusive_timeouts"] = self.extra.get("inconclusive_timeouts", 0) + len(lost)
-            if len(lost) > max(2, len(programs) // 10):
-                raise tlc.MachineryError(f"{len(lost)} of {len(programs)} isolated driver runs did not finish ({source})")
-            programs = [p for i, p in enumerate(programs) if res[i] is not None]
-            traces = [r for r in res if r is not None]
+            if lost:
+                # a program that does not end in three attempts (the last with twice the time) in its own fresh interpreter, while a
+                # program of the same batch that did end ends again when repeated now (the machine is healthy): runaway execution
+                done = [i for i, r in enumerate(res) if r is not None]
+                tmo = isolated[2] if len(isolated) > 2 else 90
+                healthy = bool(done) and _c.run_isolated(isolated[0], isolated[1], [programs[done[0]]], timeout=tmo)[0] is not None
+                if not healthy:
+                    raise tlc.MachineryError(f"{len(lost)} of {len(programs)} isolated driver runs did not finish and the control run "
+                                             f"did not either ({source})")
+                self.extra["runaway_isolated_programs"] = self.extra.get("runaway_isolated_programs", 0) + len(lost)
+                for i in lost:
+                    res[i] = [{"op": "runaway", "out": "Runaway", "why": "the program did not end in its own fresh interpreter (three attempts)"}]
+            traces = list(res)
         else:
             traces = []
             from .drivers import common as _c
